@@ -42,6 +42,9 @@ void report_fault(RunResult &rr, Hist &h, const FaultInfo &fi, const char *where
         case FC_HANG: o = strstr(where, "inflate") ? "C06.hang" : strstr(where, "deflate") ? "C10.hang" : "C05.hang"; break;
         }
         rr.fail(o, strf("%s: %s", where, fault_str(fi).c_str()));
+        // "no compression call writes beyond avail_out" is C10's first clause as well as C05's
+        if (fi.cls == FC_GUARD_AFTER && fi.is_write && !strncmp(fi.label, "out", 3) && strstr(where, "deflate") && !strstr(where, "inflate") && rr.alt.empty())
+                rr.alt = "C10";
 }
 
 // Custom Huffman tables from a histogram the library itself collects: over a generated sample, or ("subset": codes only for the
@@ -118,6 +121,13 @@ struct DeflateSession {
                 avoid_f2 = avoiding(plan, "F2");
                 avoid_f4 = avoiding(plan, "F4");
                 data = make_data(plan.at("data"));
+                if (const char *dd = getenv("SIM_DUMP_DATA")) { // diagnostic hand runs only
+                        FILE *f = fopen(dd, "wb");
+                        if (f) {
+                                fwrite(data.data(), 1, data.size(), f);
+                                fclose(f);
+                        }
+                }
                 {
                         const Json &djz = plan.at("dict");
                         if (djz.geti("zhead") && (uint64_t) djz.geti("mode") % 3 && data.size() >= 8) { // see the dictionary set-up below
@@ -403,7 +413,11 @@ struct DeflateSession {
                          st->total_out != to0 + produced)
                         rr.fail("C10.accounting", strf("call %u: consumed %u produced %u but next_in %+ld total_in %+d next_out %+ld total_out %+d", calls, consumed, produced, (long) (st->next_in - ni0), (int) (st->total_in - ti0), (long) (st->next_out - no0), (int) (st->total_out - to0)));
                 if (!g_arena.canary_ok(so) || !g_arena.canary_ok(s_stream) || !g_arena.canary_ok(s_lbuf))
+                {
                         rr.fail("C05.canary", strf("bytes outside a declared buffer changed (call %u, out %u)", calls, out));
+                        if (!g_arena.canary_ok(so) && rr.alt.empty())
+                                rr.alt = "C10";
+                }
                 if ((unsigned) st_after > ZSTATE_TMP_END)
                         rr.fail("C07.state", strf("illegal state %d", st_after));
                 if (rr.violated())
@@ -988,6 +1002,33 @@ static Json gen_deflate(Rng &r0, const std::string &focus, int tier)
                         ops.push(o);
                 }
         }
+        // dense token runs written out against a tight output window: one large block (no flushes, a roomy level buffer, all the input
+        // at once or in a few feeds), data whose tokens are as wide as the bit writers' vector paths accept, and then every call with
+        // one or two vector stores' worth of output space - the position of the window's end sweeps over the dense run
+        bool dense_out = r.chance(1, focus == "C05" || focus == "C10" ? 8 : 12) || getenv("SIM_FORCE_DENSE"); // (the variable: diagnostic hand runs only)
+        if (dense_out) {
+                static const int dks[] = { DK_RARE, DK_RARE, DK_LITCOPY, DK_LITCOPY, DK_FARCOPY, DK_ALLSYMS };
+                Json d5 = Json::obj();
+                d5.set("k", r.pick(dks)).set("n", (uint64_t) (12000 + r.below(50000))).set("s", r.u64() >> 16).set("p", (uint64_t) r.below(2000));
+                p.set("data", d5);
+                n = (uint64_t) d5.geti("n");
+                big = (uint32_t) n;
+                if (r.chance(1, 3))
+                        p.set("level", 3);
+                else if (level == 0 && r.chance(3, 4))
+                        p.set("level", 1 + (int) r.below(3));
+                if (r.chance(3, 4))
+                        p.set("hb", 0); // far copies need the whole window
+                Json lb2 = Json::arr();
+                lb2.push((int) (r.chance(1, 2) ? 4 : 2 + r.below(2))).push(0).push((int) r.below(2));
+                p.set("lb", lb2);
+                ops = Json::arr();
+                for (int k = (int) r.below(3); k > 0; k--) {
+                        Json o = Json::arr();
+                        o.push(0).push((uint32_t) (1 + r.below(n))).push((uint32_t) (33 + rio.below(96))).push(0).push(1).push(0);
+                        ops.push(o);
+                }
+        }
         p.set("ops", ops);
         Json tl = Json::arr();
         uint32_t tin = rio.chance(1, 2) ? 0 : gen_chunk(rio, im, big);
@@ -998,6 +1039,11 @@ static Json gen_deflate(Rng &r0, const std::string &focus, int tier)
                 tout = (uint32_t) (1 + rio.below(rio.chance(1, 3) ? 1 : 16));
         else
                 tout = rio.chance(1, 2) ? (uint32_t) (big + big / 2 + 1024) : std::max<uint32_t>(1, gen_chunk(rio, om, big + 1024));
+        // every call starts with one or two vector stores' worth of room (the bit writers scatter 16 tokens at once); more often for
+        // the data kinds that produce dense token runs
+        int dk = (int) p.at("data").geti("k");
+        if (dense_out || rio.chance(1, dk == DK_RARE || dk == DK_LITCOPY || dk == DK_FARCOPY ? 3 : 6))
+                tout = (uint32_t) (rio.chance(2, 3) ? 48 + rio.below(33) : 33 + rio.below(96)); // mostly within 16 bytes of the 64-byte store
         if (bigchunk && tout < 4096)
                 tout += 4096;
         if (n > 20000 && tout < 64 && !(focus == "C10"))
